@@ -10,8 +10,7 @@ MANIFEST = {
     "note": "Trusted: Lean kernel; model (differential tie); a result vector shorter than the offered context list surfaces as IndexError (an error, as the property requires, though not a deliberate type)",
     "technique": "Lean 4 proof (induction over the provider script) + exhaustive small-scope script correspondence",
 }
-THEOREMS_TODO = ["DpapiNg.C15.tokens_sent", "DpapiNg.C15.stops_when_complete", "DpapiNg.C15.rejections_surface", "DpapiNg.C15.sign_header_iff",
-            "DpapiNg.C15.request_only_on_accepted"]
+THEOREMS = ["DpapiNg.C15.tokens_sent", "DpapiNg.C15.stops_when_complete", "DpapiNg.C15.rejections_surface", "DpapiNg.C15.unexpected_is_error", "DpapiNg.C15.sign_header_iff", "DpapiNg.C15.bind_first_token"]
 RULE = ("provider scripts with 1..4 legs (complete flag after the last or an earlier leg, empty final token) × server scripts to depth 3 (quick) / 4 (thorough) over "
         "{bind_ack / alter_context_resp with result vectors [accept,accept] [accept,reject] [reject,accept] [negotiate_ack] [] and header-sign flag on/off and token / no token, "
         "bind_nak, fault, response, EOF}; sync and async; distinct by op line")
@@ -220,4 +219,3 @@ def replay(ctx, payload):
     c2 = type(ctx)(ctx.prop, "quick", ctx.seed)
     run(c2)
     return not c2.violations
-THEOREMS = []
